@@ -5,7 +5,7 @@ ROOT = os.path.dirname(os.path.dirname(os.path.abspath(__file__)))
 spec = importlib.util.spec_from_loader("core", importlib.machinery.SourceFileLoader("core", os.path.join(ROOT, "check")))
 core = importlib.util.module_from_spec(spec); spec.loader.exec_module(core)
 suite = sys.argv[1]; tier = sys.argv[2] if len(sys.argv) > 2 else "quick"; seed = int(sys.argv[3]) if len(sys.argv) > 3 else 1
-lines = core.gen_cases(suite, tier, seed, [])
+lines = [l + os.environ.get("SUFFIX","") for l in core.gen_cases(suite, tier, seed, [])]
 res = core.run_both(lines)
 il = res["impl"][0].split("\n")[:-1]; ml = res["model"][0].split("\n")[:-1]
 print("cases", len(lines), "impl", len(il), "model", len(ml), res["impl"][1][-300:], res["model"][1][-300:])
@@ -14,6 +14,7 @@ for i, l in enumerate(lines[:min(len(il), len(ml))]):
     m = ml[i].split(" | ")[0]
     cnt[il[i].split()[0] if il[i] else ""] += 1
     if il[i] != m: bad.append((l, il[i], ml[i]))
+    elif " | spec=" in ml[i] and ml[i].split(" | spec=")[1].split(" | ")[0] != il[i]: bad.append((l, il[i], ("SPECF7 " if "tags=f7" in ml[i] else "SPEC ") + ml[i].split(" | spec=")[1]))
 print(dict(cnt)); print("disagreements", len(bad))
 bad.sort(key=lambda t: len(t[0]))
 print(collections.Counter((a.split()[0], b.split()[0]) for _, a, b in bad))
